@@ -7,6 +7,7 @@ runs under GOMAXPROCS 1, 2, 16 and background load give byte-identical stdout;
 (d) a -race build of git-sizer runs the same scenarios: any race report is a
 violation."""
 import hashlib
+import json
 import os
 import random
 import shutil
@@ -165,6 +166,69 @@ def run(ctx):
                                                          expected=str(dl[0][0] if dl else b"")[:300], observed=str(dl[0][1] if dl else b"")[:300]))
                     break
         shutil.rmtree(d, ignore_errors=True)
+        # (c3) an object listing far larger than any pipe or stdio buffer (thousands of tree, blob and tag lines, which git
+        # writes in blocks, not line by line): where a read ends depends on the schedule, the report must not
+        bigl = S.Scenario()
+        fb = [bigl.add({"kind": "blob", "data": b"blob %d\n" % i}) for i in range(2003)]
+        ft = bigl.add({"kind": "tree", "entries": [(0o100644, b"file-with-a-fairly-long-name-%05d.txt" % i, b) for i, b in enumerate(fb)]})
+        fc = bigl.add({"kind": "commit", "tree": ft, "parents": []})
+        bigl.refs.append((b"refs/heads/main", fc))
+        for i in range(1200):
+            lone = bigl.add({"kind": "blob", "data": b"lone %d\n" % i})
+            bigl.refs.append((b"refs/blobs/b%04d" % i, lone))
+            if i % 3 == 0:
+                bigl.refs.append((b"refs/tags/t%04d" % i, bigl.add({"kind": "tag", "target": lone, "name": b"t%04d" % i})))
+        bigl.compute()
+        d = os.path.join(eng.scratch, "biglisting")
+        bigl.materialise(d, packed=True, pack_refs=True)
+        first = None
+        for k in range(12 if quick else 60):
+            rc, out, err = S.run_sizer(ctx["bins"]["sizer"], d, ["--json", "--no-progress"], env=S.clean_env({"GOMAXPROCS": str([16, 1, 2, 4][k % 4])}))
+            res.case(("big-listing", k), True)
+            inp = {"repository": "one tree with 2003 files, 1200 references to lone blobs, 400 annotated tags of blobs", "run": k}
+            if rc != 0:
+                res.violations.append(vlib.Violation("run failed: %s" % err[:300].decode("latin1"), inp))
+                break
+            jj = json.loads(out)
+            if jj["unique_blob_count"] != 3203 or jj["unique_tag_count"] != 400 or jj["unique_tree_count"] != 1:
+                res.violations.append(vlib.Violation("objects are missing from the census in one of several identical runs", inp,
+                                                     expected={"unique_blob_count": 3203, "unique_tag_count": 400, "unique_tree_count": 1},
+                                                     observed={k_: jj[k_] for k_ in ("unique_blob_count", "unique_tag_count", "unique_tree_count")}))
+                break
+            if first is None:
+                first = out
+            elif out != first:
+                res.violations.append(vlib.Violation("two runs on the same repository produced different stdout", inp))
+                break
+        shutil.rmtree(d, ignore_errors=True)
+        # the same through the fake git, whose listing has lines of one fixed length (41 bytes) written in 4096-byte blocks: over
+        # more than 41 blocks every position of a line — also "just before its LF" — coincides with a block end
+        fl = S.Scenario()
+        fbl = [fl.add({"kind": "blob", "size": 10 + i, "data": None}) for i in range(21000)]
+        flt = fl.add({"kind": "tree", "entries": [(0o100644, b"f%05d" % i, b) for i, b in enumerate(fbl)]})
+        flc = fl.add({"kind": "commit", "tree": flt, "parents": []})
+        fl.refs.append((b"refs/heads/main", flc))
+        fl.compute()
+        forder = fl.enum_gitlike([flc])
+        first = None
+        for k in range(12 if quick else 60):
+            rc, out, err, log = eng.run_fake(fl, forder, [], [], extra_args=["--json", "--no-progress"], env={"GOMAXPROCS": str([16, 1, 2, 4][k % 4])}, timeout=120)
+            res.case(("big-listing-fake", k), True)
+            inp = {"repository": "one tree with 21000 files (fake git: 41-byte lines in 4096-byte blocks)", "run": k}
+            if rc != 0:
+                res.violations.append(vlib.Violation("run failed: %s" % str(err)[:300], inp))
+                break
+            jj = json.loads(out)
+            if jj["unique_blob_count"] != 21000 or jj["unique_tree_count"] != 1:
+                res.violations.append(vlib.Violation("objects are missing from the census in one of several identical runs", inp,
+                                                     expected={"unique_blob_count": 21000, "unique_tree_count": 1},
+                                                     observed={k_: jj[k_] for k_ in ("unique_blob_count", "unique_tree_count")}))
+                break
+            if first is None:
+                first = out
+            elif out != first:
+                res.violations.append(vlib.Violation("two runs on the same repository produced different stdout", inp))
+                break
         # (d)
         race = vlib.build_go(race=True)["sizer"]
         nraces = 0
